@@ -3279,15 +3279,54 @@ func (r *Resolver) clearAdditional(req, resp *dns.Msg, extra ...bool) *dns.Msg {
 	shouldClearExtra := len(extra) == 0 || !extra[0]
 
 	if shouldClearExtra {
+		// What the authority said about the client subnet has to survive
+		// the clean-up: the cache above files a tailored answer under the
+		// SCOPE of this option, and without it the answer obtained for
+		// one subnet lands under the shared key and is served to all.
+		upstreamSubnet := responseSubnetOption(resp)
 		resp.Extra = []dns.RR{}
 
 		// Preserve EDNS0 if present
 		if opt := req.IsEdns0(); opt != nil {
+			if upstreamSubnet != nil {
+				opt = withSubnetOption(opt, upstreamSubnet)
+			}
 			resp.Extra = append(resp.Extra, opt)
 		}
 	}
 
 	return resp
+}
+
+// responseSubnetOption returns the client-subnet option of an upstream
+// response, if it carries one.
+func responseSubnetOption(resp *dns.Msg) *dns.EDNS0_SUBNET {
+	opt := resp.IsEdns0()
+	if opt == nil {
+		return nil
+	}
+	for _, o := range opt.Option {
+		if sub, ok := o.(*dns.EDNS0_SUBNET); ok {
+			return sub
+		}
+	}
+	return nil
+}
+
+// withSubnetOption returns a copy of opt whose client-subnet option is
+// sub. The request's own OPT is shared with the request and is never
+// modified.
+func withSubnetOption(opt *dns.OPT, sub *dns.EDNS0_SUBNET) *dns.OPT {
+	cp := *opt
+	cp.Option = make([]dns.EDNS0, 0, len(opt.Option)+1)
+	for _, o := range opt.Option {
+		if _, ok := o.(*dns.EDNS0_SUBNET); ok {
+			continue
+		}
+		cp.Option = append(cp.Option, o)
+	}
+	cp.Option = append(cp.Option, sub)
+	return &cp
 }
 
 func (r *Resolver) equalServers(s1, s2 *authority.Servers) bool {
